@@ -664,6 +664,22 @@ func execC14Body(in sx.V) sx.V {
 	l := in.List
 	ver := wallet.Version(l[0].I())
 	key := ed25519.NewKeyFromSeed(l[9].Bytes)
+	cfg := wallet.MessageConfig{Seqno: uint32(l[3].U64()), ValidUntil: time.Unix(l[4].Int.Int64(), 0),
+		V5MsgType: wallet.V5MsgType(uint32(l[6].U64()))}
+	if ver == wallet.V5R1 && len(l[12].List) == 1 {
+		// the exported CreateSignedMsgBodyCell of the v5r1 wallet, with extended actions
+		o := woptsFromSx(l[2])
+		w5 := wallet.NewWalletV5R1(key.Public().(ed25519.PublicKey), wallet.Options{NetworkGlobalID: o.net, Workchain: o.wc, SubWalletID: o.sub})
+		exts := wallet.W5ExtendedActions{}
+		for _, e := range l[12].List[0].List {
+			exts = append(exts, extActFromSx(e).toGo())
+		}
+		body, err := w5.CreateSignedMsgBodyCell(key, rawMsgsFromSx(l[5]), &exts, cfg)
+		if err != nil {
+			return sx.A("err")
+		}
+		return sx.L(sx.Bytes(mustHash(body)), sx.Bits(cellBits(body)), sx.Nat(len(body.Refs())))
+	}
 	w, err := wallet.New(key, ver, &fakeChain{}, woptsFromSx(l[2]).options()...)
 	if err != nil {
 		return sx.A("err")
@@ -673,8 +689,7 @@ func execC14Body(in sx.V) sx.V {
 		ss = append(ss, sendableFromSx(e).toSendable())
 	}
 	rand.Seed(l[10].Int.Int64())
-	body, err := w.CreateMessageBody(wallet.MessageConfig{Seqno: uint32(l[3].U64()), ValidUntil: time.Unix(l[4].Int.Int64(), 0),
-		V5MsgType: wallet.V5MsgType(uint32(l[6].U64()))}, ss...)
+	body, err := w.CreateMessageBody(cfg, ss...)
 	if err != nil {
 		return sx.A("err")
 	}
@@ -701,16 +716,22 @@ func verdictSx(err error, body *boc.Cell, appended bool) sx.V {
 	return sx.A("err")
 }
 
+// the body of a message whatever its envelope (nil when the envelope does not decode)
+func bodyOf(root *boc.Cell) *boc.Cell {
+	var m tlb.Message
+	if err := tlb.Unmarshal(cellFromSx(cellToSx(root)), &m); err != nil {
+		return nil
+	}
+	b := boc.Cell(m.Body.Value)
+	return &b
+}
+
 func execC14Verify(in sx.V) sx.V {
 	l := in.List
 	ver := wallet.Version(l[0].I())
 	root := cellFromSx(l[1])
 	err := wallet.VerifySignature(ver, root, ed25519.PublicKey(l[2].Bytes))
-	var body *boc.Cell
-	if len(root.Refs()) > 0 {
-		body = lastRef(root)
-	}
-	return verdictSx(err, body, sigAppended(ver))
+	return verdictSx(err, bodyOf(root), sigAppended(ver))
 }
 
 func execC14V5Verify(in sx.V) sx.V {
@@ -736,8 +757,8 @@ func oracleRow(pk []byte, body *boc.Cell, appended bool) (sx.V, bool) {
 
 func emitVerify(c *Ctx, ver wallet.Version, root *boc.Cell, pk []byte, class string) sx.V {
 	var tbl []sx.V
-	if len(root.Refs()) > 0 {
-		if row, ok := oracleRow(pk, lastRef(root), sigAppended(ver)); ok {
+	if b := bodyOf(root); b != nil {
+		if row, ok := oracleRow(pk, b, sigAppended(ver)); ok {
 			tbl = append(tbl, row)
 		}
 	}
@@ -840,6 +861,289 @@ func flipOracle(c *Ctx, ver wallet.Version, root *boc.Cell, pk ed25519.PublicKey
 	}
 }
 
+// ---- MsgAddress / v5r1 extended actions <-> sx
+
+func anySx(a tlb.Maybe[tlb.Anycast]) sx.V {
+	if !a.Exists {
+		return sx.L()
+	}
+	return sx.L(sx.N(uint64(a.Value.Depth)), sx.N(uint64(a.Value.RewritePfx)))
+}
+
+func bitStringBits(b boc.BitString) string {
+	b.ResetCounter()
+	return bitsOf(&b)
+}
+
+func msgAddrSx(a tlb.MsgAddress) sx.V {
+	switch a.SumType {
+	case "AddrExtern":
+		return sx.L(sx.A("ext"), sx.Bits(bitStringBits(*a.AddrExtern)))
+	case "AddrStd":
+		return sx.L(sx.A("std"), anySx(a.AddrStd.Anycast), sx.Z(int64(a.AddrStd.WorkchainId)), sx.Bits(hexBits(a.AddrStd.Address[:])))
+	case "AddrVar":
+		return sx.L(sx.A("var"), anySx(a.AddrVar.Anycast), sx.Z(int64(a.AddrVar.WorkchainId)), sx.Bits(bitStringBits(a.AddrVar.Address)))
+	}
+	return sx.A("none")
+}
+
+func anyFromSx(v sx.V) tlb.Maybe[tlb.Anycast] {
+	var a tlb.Maybe[tlb.Anycast]
+	if len(v.List) == 2 {
+		a.Exists = true
+		a.Value.Depth = uint32(v.List[0].U64())
+		a.Value.RewritePfx = uint32(v.List[1].U64())
+	}
+	return a
+}
+
+func msgAddrFromSx(v sx.V) tlb.MsgAddress {
+	var a tlb.MsgAddress
+	if v.K != sx.KL {
+		a.SumType = "AddrNone"
+		return a
+	}
+	switch v.List[0].Atom {
+	case "ext":
+		bs := bitStringFromBits(v.List[1].Bits)
+		a.SumType = "AddrExtern"
+		a.AddrExtern = &bs
+	case "std":
+		a.SumType = "AddrStd"
+		a.AddrStd.Anycast = anyFromSx(v.List[1])
+		a.AddrStd.WorkchainId = int8(v.List[2].Int.Int64())
+		bs := v.List[3].Bits
+		for i := 0; i < 256 && i < len(bs); i++ {
+			if bs[i] == '1' {
+				a.AddrStd.Address[i/8] |= 1 << uint(7-i%8)
+			}
+		}
+	case "var":
+		a.SumType = "AddrVar"
+		bs := bitStringFromBits(v.List[3].Bits)
+		a.AddrVar = &struct {
+			Anycast     tlb.Maybe[tlb.Anycast]
+			AddrLen     tlb.Uint9
+			WorkchainId int32
+			Address     boc.BitString
+		}{Anycast: anyFromSx(v.List[1]), AddrLen: tlb.Uint9(len(v.List[3].Bits)), WorkchainId: int32(v.List[2].Int.Int64()), Address: bs}
+	}
+	return a
+}
+
+func randAnycast(r *prng.R) tlb.Maybe[tlb.Anycast] {
+	var a tlb.Maybe[tlb.Anycast]
+	if r.Chance(30) {
+		a.Exists = true
+		d := []uint32{1, 2, 8, 29, 30}[r.Intn(5)]
+		a.Value.Depth = d
+		a.Value.RewritePfx = uint32(r.U64()) & (1<<d - 1)
+	}
+	return a
+}
+
+func randMsgAddr(r *prng.R, stdOnly bool) tlb.MsgAddress {
+	k := r.Intn(8)
+	if stdOnly && k < 2 {
+		k = 5
+	}
+	var v sx.V
+	switch k {
+	case 0:
+		return tlb.MsgAddress{SumType: "AddrNone"}
+	case 1:
+		v = sx.L(sx.A("ext"), sx.Bits(randBits(r, []int{0, 1, 8, 64, 255, 256, 300}[r.Intn(7)])))
+	case 2:
+		v = sx.L(sx.A("var"), anySx(randAnycast(r)), sx.Z(int64(int32(r.U64()))), sx.Bits(randBits(r, []int{0, 7, 256, 300}[r.Intn(4)])))
+	default:
+		v = sx.L(sx.A("std"), anySx(randAnycast(r)), sx.Z(int64([]int{0, -1, 0, 1, 127, -128}[r.Intn(6)])), sx.Bits(randBits(r, 256)))
+	}
+	return msgAddrFromSx(v)
+}
+
+type extAct struct {
+	kind    int // 0 add, 1 remove, 2 set signature allowed
+	addr    tlb.MsgAddress
+	allowed bool
+}
+
+func (x extAct) sx() sx.V {
+	switch x.kind {
+	case 0:
+		return sx.L(sx.A("add"), msgAddrSx(x.addr))
+	case 1:
+		return sx.L(sx.A("remove"), msgAddrSx(x.addr))
+	}
+	return sx.L(sx.A("sig"), sx.B(x.allowed))
+}
+
+func extActFromSx(v sx.V) extAct {
+	switch v.List[0].Atom {
+	case "add":
+		return extAct{kind: 0, addr: msgAddrFromSx(v.List[1])}
+	case "remove":
+		return extAct{kind: 1, addr: msgAddrFromSx(v.List[1])}
+	}
+	return extAct{kind: 2, allowed: v.List[1].Bool}
+}
+
+func (x extAct) toGo() wallet.W5ExtendedAction {
+	switch x.kind {
+	case 0:
+		return wallet.W5ExtendedAction{SumType: "AddExtension", AddExtension: &struct{ Addr tlb.MsgAddress }{x.addr}}
+	case 1:
+		return wallet.W5ExtendedAction{SumType: "RemoveExtension", RemoveExtension: &struct{ Addr tlb.MsgAddress }{x.addr}}
+	}
+	return wallet.W5ExtendedAction{SumType: "SetSignatureAllowed", SetSignatureAllowed: &struct{ Allowed bool }{x.allowed}}
+}
+
+func extActOfGo(a wallet.W5ExtendedAction) extAct {
+	switch a.SumType {
+	case "AddExtension":
+		return extAct{kind: 0, addr: a.AddExtension.Addr}
+	case "RemoveExtension":
+		return extAct{kind: 1, addr: a.RemoveExtension.Addr}
+	}
+	return extAct{kind: 2, allowed: a.SetSignatureAllowed.Allowed}
+}
+
+func extsSx(xs []extAct) sx.V {
+	var l []sx.V
+	for _, x := range xs {
+		l = append(l, x.sx())
+	}
+	return sx.L(sx.L(l...))
+}
+
+func goExtsSx(p *wallet.W5ExtendedActions) sx.V {
+	if p == nil {
+		return sx.L()
+	}
+	var xs []extAct
+	for _, a := range *p {
+		xs = append(xs, extActOfGo(a))
+	}
+	return extsSx(xs)
+}
+
+func randExts(r *prng.R, n int) []extAct {
+	var xs []extAct
+	for i := 0; i < n; i++ {
+		k := r.Intn(3)
+		x := extAct{kind: k, allowed: r.Bool()}
+		if k < 2 {
+			x.addr = randMsgAddr(r, r.Chance(70))
+		}
+		xs = append(xs, x)
+	}
+	return xs
+}
+
+// ---- envelopes: the same body under other tlb.Message shapes
+
+// variant 0..: dest anycast / src extern / import fee; init inline; init by ref with libraries; body inline;
+// internal message; external-out message
+func envelopeVariant(r *prng.R, variant int, body *boc.Cell, dest ton.AccountID) (*boc.Cell, error) {
+	var m tlb.Message
+	std := dest.ToMsgAddress()
+	mkInit := func(lib bool) tlb.StateInit {
+		var si tlb.StateInit
+		if r.Bool() {
+			si.SplitDepth.Exists = true
+			si.SplitDepth.Value = tlb.Uint5(r.Intn(32))
+		}
+		if r.Bool() {
+			si.Special.Exists = true
+			si.Special.Value = tlb.TickTock{Tick: r.Bool(), Tock: r.Bool()}
+		}
+		if r.Chance(70) {
+			si.Code.Exists = true
+			si.Code.Value.Value = *randTinyCell(r, 1)
+		}
+		if r.Chance(70) {
+			si.Data.Exists = true
+			si.Data.Value.Value = *randTinyCell(r, 1)
+		}
+		if lib {
+			for i := 0; i < 1+r.Intn(3); i++ {
+				var k tlb.Bits256
+				copy(k[:], r.Bytes(32))
+				si.Library.Put(k, tlb.SimpleLib{Public: r.Bool(), Root: *randTinyCell(r, 0)})
+			}
+		}
+		return si
+	}
+	extIn := func() {
+		m.Info.SumType = "ExtInMsgInfo"
+		m.Info.ExtInMsgInfo = &struct {
+			Src       tlb.MsgAddress
+			Dest      tlb.MsgAddress
+			ImportFee tlb.VarUInteger16
+		}{Src: tlb.MsgAddress{SumType: "AddrNone"}, Dest: std}
+	}
+	m.Body.IsRight = true
+	m.Body.Value = tlb.Any(*body)
+	switch variant {
+	case 0:
+		extIn()
+		m.Info.ExtInMsgInfo.Dest.AddrStd.Anycast.Exists = true
+		m.Info.ExtInMsgInfo.Dest.AddrStd.Anycast.Value = tlb.Anycast{Depth: 5, RewritePfx: uint32(r.Intn(32))}
+		m.Info.ExtInMsgInfo.Src = msgAddrFromSx(sx.L(sx.A("ext"), sx.Bits(randBits(r, r.Intn(70)))))
+		m.Info.ExtInMsgInfo.ImportFee = tlb.VarUInteger16(*new(big.Int).SetUint64(r.U64() >> uint(r.Intn(64))))
+	case 1:
+		extIn()
+		m.Init.Exists = true
+		m.Init.Value.IsRight = false
+		m.Init.Value.Value = mkInit(false)
+	case 2:
+		extIn()
+		m.Init.Exists = true
+		m.Init.Value.IsRight = true
+		m.Init.Value.Value = mkInit(true)
+	case 3:
+		extIn()
+		m.Init.Exists = true
+		m.Init.Value.IsRight = false
+		m.Init.Value.Value = mkInit(true)
+	case 4:
+		extIn()
+		m.Info.ExtInMsgInfo.Dest = randMsgAddr(r, false)
+		m.Body.IsRight = false
+	case 5:
+		m.Info.SumType = "IntMsgInfo"
+		m.Info.IntMsgInfo = &struct {
+			IhrDisabled bool
+			Bounce      bool
+			Bounced     bool
+			Src         tlb.MsgAddress
+			Dest        tlb.MsgAddress
+			Value       tlb.CurrencyCollection
+			IhrFee      tlb.Grams
+			FwdFee      tlb.Grams
+			CreatedLt   uint64
+			CreatedAt   uint32
+		}{IhrDisabled: r.Bool(), Bounce: r.Bool(), Bounced: r.Bool(), Src: randMsgAddr(r, false), Dest: std,
+			IhrFee: tlb.Grams(r.U64() >> 20), FwdFee: tlb.Grams(r.Intn(1000)), CreatedLt: r.U64(), CreatedAt: uint32(r.U64())}
+		m.Info.IntMsgInfo.Value.Grams = tlb.Grams(r.U64() >> uint(r.Intn(64)))
+		if r.Bool() {
+			m.Info.IntMsgInfo.Value.Other.Dict.Put(tlb.Uint32(r.Intn(1000)), tlb.VarUInteger32(*big.NewInt(int64(r.Intn(1 << 30)))))
+		}
+	default:
+		m.Info.SumType = "ExtOutMsgInfo"
+		m.Info.ExtOutMsgInfo = &struct {
+			Src       tlb.MsgAddress
+			Dest      tlb.MsgAddress
+			CreatedLt uint64
+			CreatedAt uint32
+		}{Src: std, Dest: randMsgAddr(r, false), CreatedLt: r.U64(), CreatedAt: uint32(r.U64())}
+	}
+	c := boc.NewCell()
+	if err := tlb.Marshal(c, m); err != nil {
+		return nil, err
+	}
+	return c, nil
+}
+
 // ---- c14.decode
 
 func decodeProj(ver wallet.Version, root *boc.Cell) sx.V {
@@ -851,13 +1155,13 @@ func decodeProj(ver wallet.Version, root *boc.Cell) sx.V {
 		if err != nil {
 			return sx.A("err")
 		}
-		return sx.L(sx.N(uint64(m.SubWalletId)), sx.N(uint64(m.ValidUntil)), sx.N(uint64(m.Seqno)), sx.N(0), msgs(m.RawMessages))
+		return sx.L(sx.N(uint64(m.SubWalletId)), sx.N(uint64(m.ValidUntil)), sx.N(uint64(m.Seqno)), sx.N(0), msgs(m.RawMessages), sx.L())
 	case wallet.V4R1, wallet.V4R2:
 		m, err := wallet.DecodeMessageV4(root)
 		if err != nil {
 			return sx.A("err")
 		}
-		return sx.L(sx.N(uint64(m.SubWalletId)), sx.N(uint64(m.ValidUntil)), sx.N(uint64(m.Seqno)), sx.N(uint64(uint8(m.Op))), msgs(m.RawMessages))
+		return sx.L(sx.N(uint64(m.SubWalletId)), sx.N(uint64(m.ValidUntil)), sx.N(uint64(m.Seqno)), sx.N(uint64(uint8(m.Op))), msgs(m.RawMessages), sx.L())
 	case wallet.V5Beta:
 		m, err := wallet.DecodeMessageV5Beta(root)
 		if err != nil {
@@ -872,7 +1176,7 @@ func decodeProj(ver wallet.Version, root *boc.Cell) sx.V {
 		if s.Op {
 			op = 1
 		}
-		return sx.L(id, sx.N(uint64(s.ValidUntil)), sx.N(uint64(s.Seqno)), sx.N(op), msgs(m.RawMessages()))
+		return sx.L(id, sx.N(uint64(s.ValidUntil)), sx.N(uint64(s.Seqno)), sx.N(op), msgs(m.RawMessages()), sx.L())
 	case wallet.V5R1:
 		m, err := wallet.DecodeMessageV5(root)
 		if err != nil {
@@ -881,19 +1185,19 @@ func decodeProj(ver wallet.Version, root *boc.Cell) sx.V {
 		switch m.SumType {
 		case "SignedInternal":
 			s := m.SignedInternal
-			return sx.L(sx.N(uint64(s.WalletId)), sx.N(uint64(s.ValidUntil)), sx.N(uint64(s.Seqno)), sx.N(0), msgs(m.RawMessages()))
+			return sx.L(sx.N(uint64(s.WalletId)), sx.N(uint64(s.ValidUntil)), sx.N(uint64(s.Seqno)), sx.N(0), msgs(m.RawMessages()), goExtsSx(s.ExtendedActions))
 		case "SignedExternal":
 			s := m.SignedExternal
-			return sx.L(sx.N(uint64(s.WalletId)), sx.N(uint64(s.ValidUntil)), sx.N(uint64(s.Seqno)), sx.N(0), msgs(m.RawMessages()))
+			return sx.L(sx.N(uint64(s.WalletId)), sx.N(uint64(s.ValidUntil)), sx.N(uint64(s.Seqno)), sx.N(0), msgs(m.RawMessages()), goExtsSx(s.ExtendedActions))
 		default:
-			return sx.L(sx.N(0), sx.N(0), sx.N(0), sx.N(m.ExtensionAction.QueryID), msgs(m.RawMessages()))
+			return sx.L(sx.N(0), sx.N(0), sx.N(0), sx.N(m.ExtensionAction.QueryID), msgs(m.RawMessages()), goExtsSx(m.ExtensionAction.ExtendedActions))
 		}
 	case wallet.HighLoadV2R2:
 		m, err := wallet.DecodeHighloadV2Message(root)
 		if err != nil {
 			return sx.A("err")
 		}
-		return sx.L(sx.N(uint64(m.SubWalletId)), sx.N(m.BoundedQueryID>>32), sx.N(0), sx.N(m.BoundedQueryID&0xffffffff), msgs(m.RawMessages))
+		return sx.L(sx.N(uint64(m.SubWalletId)), sx.N(m.BoundedQueryID>>32), sx.N(0), sx.N(m.BoundedQueryID&0xffffffff), msgs(m.RawMessages), sx.L())
 	}
 	return sx.A("err")
 }
@@ -913,28 +1217,7 @@ func execC14Decode(in sx.V) sx.V {
 	return out
 }
 
-// v5r1 bodies whose "extended actions" bit is set are outside the modelled class
-func c14Unmodelled(ver wallet.Version, root *boc.Cell) bool {
-	if ver != wallet.V5R1 || len(root.Refs()) == 0 {
-		return false
-	}
-	b := cellBits(lastRef(root))
-	if len(b) < 32 {
-		return false
-	}
-	switch b[:32] {
-	case fmt.Sprintf("%032b", 0x73696e74), fmt.Sprintf("%032b", 0x7369676e):
-		return len(b) > 129 && b[129] == '1'
-	case fmt.Sprintf("%032b", 0x6578746e):
-		return len(b) > 97 && b[97] == '1'
-	}
-	return false
-}
-
 func emitDecode(c *Ctx, ver wallet.Version, root *boc.Cell, class string) sx.V {
-	if c14Unmodelled(ver, root) {
-		return sx.A("skipped")
-	}
 	return c.Emit("c14.decode", sx.L(sx.Nat(int(ver)), cellToSx(root)), class)
 }
 
@@ -1065,7 +1348,7 @@ func genC14(c *Ctx) {
 		seqno, valid, rseed := boundary32(r), boundaryUnix(r), int64(r.U64()>>1)
 		mkIn := func(sig []byte) sx.V {
 			return sx.L(sx.Nat(int(ver)), sx.Bytes(pk), opts.sx(), sx.N(uint64(seqno)), sx.Z(valid), ms.sx(), sx.N(uint64(mt)),
-				sx.N(uint64(rndOf(rseed))), sx.Bytes(sig), sx.Bytes(seed), sx.Z(rseed), sx.L(ssx...))
+				sx.N(uint64(rndOf(rseed))), sx.Bytes(sig), sx.Bytes(seed), sx.Z(rseed), sx.L(ssx...), sx.L())
 		}
 		// dry run for the signature column
 		sig := make([]byte, 64)
@@ -1118,6 +1401,102 @@ func genC14(c *Ctx) {
 		ov := c14SendVersions[r.Intn(len(c14SendVersions))]
 		emitVerify(c, ov, k.root, k.pk, "verify|cross-version")
 		emitDecode(c, ov, k.root, "decode|cross-version")
+	}
+	// 5b. v5r1 with extended actions (add / remove extension, set signature auth): body, message, verification,
+	// bit flips, decoding
+	for n := 0; n <= 4; n++ {
+		for rep := 0; rep < c.Scale(2, 10); rep++ {
+			seed := c14Seed(r)
+			key := ed25519.NewKeyFromSeed(seed)
+			pk := key.Public().(ed25519.PublicKey)
+			opts := randOpts(r)
+			ms := randRawMsgs(r, r.Intn(4), true)
+			xs := randExts(r, n)
+			mt := []uint32{0x7369676e, 0x7369676e, 0x73696e74, 0x6578746e}[r.Intn(4)]
+			seqno, valid := boundary32(r), boundaryUnix(r)
+			mkIn := func(sig []byte) sx.V {
+				return sx.L(sx.Nat(int(wallet.V5R1)), sx.Bytes(pk), opts.sx(), sx.N(uint64(seqno)), sx.Z(valid), ms.sx(), sx.N(uint64(mt)),
+					sx.N(0), sx.Bytes(sig), sx.Bytes(seed), sx.Z(0), sx.L(), extsSx(xs))
+			}
+			sig := make([]byte, 64)
+			dry := execC14Body(mkIn(sig))
+			if dry.K == sx.KL {
+				bits := dry.List[1].Bits
+				for j, ch := range bits[len(bits)-512:] {
+					if ch == '1' {
+						sig[j/8] |= 1 << uint(7-j%8)
+					}
+				}
+			}
+			in := mkIn(sig)
+			out := c.Emit("c14.body", in, fmt.Sprintf("bodyx|ext=%d|mt=%x", n, mt))
+			if out.K != sx.KL {
+				// a long addr_var / addr_extern may not fit the body cell; anything else is a failure
+				continue
+			}
+			if mt != 0x7369676e {
+				continue
+			}
+			// the message around that body
+			w5 := wallet.NewWalletV5R1(pk, wallet.Options{NetworkGlobalID: opts.net, Workchain: opts.wc, SubWalletID: opts.sub})
+			exts := wallet.W5ExtendedActions{}
+			for _, x := range xs {
+				exts = append(exts, x.toGo())
+			}
+			body, err := w5.CreateSignedMsgBodyCell(key, ms, &exts, wallet.MessageConfig{Seqno: seqno, ValidUntil: time.Unix(valid, 0), V5MsgType: wallet.V5MsgTypeSignedExternal})
+			if err != nil {
+				continue
+			}
+			var dest ton.AccountID
+			copy(dest.Address[:], r.Bytes(32))
+			em, _ := ton.CreateExternalMessage(dest, body, nil, tlb.VarUInteger16{})
+			root := boc.NewCell()
+			if tlb.Marshal(root, em) != nil {
+				continue
+			}
+			vo := emitVerify(c, wallet.V5R1, root, pk, fmt.Sprintf("verify|ext-actions|n=%d", n))
+			if vo.Head() != "ok" {
+				c.Fail("c14.verify", in, "c14-own-key-rejected", "v5r1 message with extended actions rejected under its key")
+			}
+			flipOracle(c, wallet.V5R1, root, pk, c.Scale(1, 4))
+			do := emitDecode(c, wallet.V5R1, root, fmt.Sprintf("decode|ext-actions|n=%d", n))
+			if n > 0 {
+				if do.K != sx.KL || do.List[5].String() != extsSx(xs).String() || do.List[4].String() != ms.sx().String() {
+					c.Fail("c14.decode", in, "c14-ext-roundtrip", "decoding does not return the requested extended actions and messages")
+				}
+			}
+		}
+	}
+	// 5c. the same signed body under other envelopes: anycast / external source / import fee, init inline, init
+	// with libraries, body inline, internal message, external-out message
+	for i, k := range kept {
+		if !k.small || k.ver == wallet.V5Beta || (i%3 != 0 && !c.Thorough()) {
+			continue
+		}
+		body := bodyOf(k.root)
+		if body == nil {
+			continue
+		}
+		var dest ton.AccountID
+		copy(dest.Address[:], r.Bytes(32))
+		want := decodeProj(k.ver, k.root).String()
+		for variant := 0; variant <= 6; variant++ {
+			if !c.Thorough() && (i/3+variant)%2 == 1 {
+				continue
+			}
+			root, err := envelopeVariant(r, variant, body, dest)
+			if err != nil {
+				continue // does not fit one cell
+			}
+			vo := emitVerify(c, k.ver, root, k.pk, fmt.Sprintf("verify|envelope%d|v%d", variant, int(k.ver)))
+			if vo.Head() != "ok" {
+				c.Fail("c14.verify", cellToSx(root), "c14-envelope-verify", fmt.Sprintf("own body under envelope variant %d is not accepted", variant))
+			}
+			do := emitDecode(c, k.ver, root, fmt.Sprintf("decode|envelope%d|v%d", variant, int(k.ver)))
+			if do.String() != want {
+				c.Fail("c14.decode", cellToSx(root), "c14-envelope-decode", fmt.Sprintf("own body under envelope variant %d decodes differently", variant))
+			}
+		}
 	}
 	// 6. malformed bodies under a valid envelope
 	for i, k := range kept {
